@@ -1,13 +1,17 @@
 """C08: resume loses nothing, repeats only the tied group.
 Implementation = PcfgQueue(pcfg, save_config) restore path of /repo; model =
 restore_gen / resume_start_gen of Next.v with the comparison of
-is_parent_around taken from the source (gen/Consts_gen.v)."""
+is_parent_around taken from the source (gen/Consts_gen.v).
+Beside the random small rulesets (every cut point), harness/deep_restore.py adds sessions
+saved far down two long terminal lists (save state built directly, restored queue and first
+pops against the enumeration of the grid, a second save/restore cycle, scaled-down model cases)."""
 import json
 import os
 import subprocess
 from collections import Counter
 
 import common
+import deep_restore
 import impl_next
 import rulesets
 
@@ -235,6 +239,15 @@ def run(ctx):
         v, ran = main_history(ctx, code, rs2, "H%d" % i)
         vio += v
         dist["main_history_runs"] = dist.get("main_history_runs", 0) + ran
+    # sessions saved deep into long terminal lists (harness/deep_restore.py): the save state is built directly
+    vio += deep_restore.explore(ctx, ctx.scale(3, 6), ctx.scale(500, 1000), ctx.scale(1000, 1800), ctx.scale(500000, 1200000),
+                                ctx.scale(2000, 8000), dist, samples)
+    # ... and scaled-down instances of the same family, run to exhaustion, for the model
+    for rs, g, m, B in deep_restore.small_cases(ctx, ctx.scale(4, 24)):
+        vm, table, bases = rulesets.model_tables(g)
+        cases.append((impl_next.coq_rs(table, bases), common.cfloat(m), common.clist([impl_next.coq_obs(vm, it) for it in B]),
+                      {"deep": True, "ruleset": rs, "m": m.hex(), "pops": 10 ** 6, "then": 0}))
+        dist["deep_model_cases"] = dist.get("deep_model_cases", 0) + 1
     # correspondence
     per = 60
     shards = []
@@ -262,13 +275,20 @@ def run(ctx):
     rule = ("random tie-rich rulesets (as C01, <= %d pre-terminals); for EVERY cut k the state a real PcfgQueue saves after "
             "its (k+1)-th pop is restored by a new PcfgQueue and run to exhaustion; oracle against the uninterrupted run for "
             "every k; plus two-cycle histories and the uuid refusal through the CLI; non-trivial = the saved probability is "
-            "shared by >= 2 pre-terminals or a restored node has >= 2 parents; distinct by (tables, saved probability)" % cap)
-    return {"evaluations": dist["cuts"], "distinct_nontrivial": nontrivial, "rule": rule, "samples": samples,
+            "shared by >= 2 pre-terminals or a restored node has >= 2 parents; distinct by (tables, saved probability); plus the "
+            "deep-restore family (not counted as non-trivial): 1-2 base structures over two variables of %d-%d groups, save state "
+            "built directly at a cell far down both lists (restore walk deeper than the longest list + 100 in %d cases, deepest "
+            "%d), restored queue and first pops compared with the enumeration of the whole grid, second save/restore cycle"
+            % (cap, ctx.scale(500, 1000), ctx.scale(1000, 1800), dist.get("deep_walk_depth_over_longest_list", 0),
+               dist.get("deep_max_walk_depth", 0)))
+    return {"evaluations": dist["cuts"] + dist.get("deep_restores", 0), "distinct_nontrivial": nontrivial, "rule": rule, "samples": samples,
             "corr": corr, "violations": vio, "dist": dist}
 
 
 def replay(ctx, data):
     inp = data.get("input") or {}
+    if inp.get("deep"):
+        return deep_restore.replay(ctx, inp)
     if inp.get("cli") == "main-history":
         code = common.copy_code_tree(common.scratch())
         v, _ = main_history(ctx, code, inp["ruleset"], inp["ruleset"].get("name", "H0"))
